@@ -13,7 +13,9 @@
 From Coq Require Import ZArith NArith List Bool Sorted.
 Import ListNotations.
 From PV Require Import Exchange.KV Exchange.Index Exchange.Paging Exchange.Commit Proofs.C13Glue Proofs.PagingSdkProofs
-  Proofs.CommitProofs.
+  Proofs.CommitProofs Proofs.PagingMaxProofs Proofs.MarketsPagingProofs Proofs.RespellProofs
+  Exchange.KeyTable Exchange.KeyCoverage Gen.GenExchangeKeys Proofs.KeyCoverageProofs
+  Exchange.GenesisImport Proofs.GenesisImportProofs Proofs.GenesisCommitProofs.
 Open Scope N_scope.
 
 (** Every open order is fetchable by id (that is [open]) and is listed exactly once (strictly
@@ -94,7 +96,13 @@ Print Assumptions C13_external_id_unique.
 
 (** Payments: at most one per (source, external id); the all-payments and by-source listings
     show exactly the stored payments; the by-target listing shows a payment exactly under its
-    CURRENT target (and payments without a target under no target). *)
+    CURRENT target (and payments without a target under no target).
+    Accounts are BYTES here ([p_source], [p_target]); the stored record also carries which of the
+    two bech32 SPELLINGS (lower / upper case) each address string has, and the histories contain
+    creations, acceptances and target changes in either spelling, [OPayRetarget] onto the account
+    a payment already names in the other spelling included (the code compares STRINGS to decide
+    whether the target changed and builds index keys from BYTES): after any such history the
+    target index lists a payment under exactly the bytes of its current target. *)
 Theorem C13_payments : forall ops,
   let s := run ops in
   (NoDup (map (fun p => (p_source p, p_ext p)) (all_payments s)) /\
@@ -400,6 +408,288 @@ Theorem C13_commitment_entries_listed : forall ops, let kv := cs_kv (crun ops) i
   (forall e, In e (pstore kv p_commit_all) -> exists m a c, commitment_of_entry_all e = [(m, a, c)]).
 Proof. exact commitment_entries_listed. Qed.
 Print Assumptions C13_commitment_entries_listed.
+
+(** ---- address spellings ---- *)
+
+(** The re-spelling step itself, after ANY history: a payment whose Target string is stored in
+    upper case is "changed" to the same account (MsgChangePaymentTarget hands the keeper the
+    canonical lower-case string, so this is not the "already has target" refusal; old and new index
+    key are the same key): the change is accepted, the record carries the lower-case string
+    ([relower p]), GetPayment still finds it and the target listing still shows it -- and everything
+    it shows has that target. *)
+Theorem C13_respelled_target_stays_listed : forall ops src e p,
+  let s := run ops in
+  get_payment s src e = Some p ->
+  p_target p <> [] -> p_tgt_up p = true ->
+  addr_ok src = true -> ext_ok e = true -> addr_ok (p_target p) = true ->
+  exists s',
+    retarget_payment s src e (p_target p) = Some s' /\
+    s' = run (ops ++ [OPayRetarget src e (p_target p)]) /\
+    get_payment s' src e = Some (relower p) /\
+    In (relower p) (payments_of_target s' (p_target p)) /\
+    (forall q, In q (payments_of_target s' (p_target p)) ->
+               get_payment s' (p_source q) (p_ext q) = Some q /\ p_target q = p_target p).
+Proof. exact respelled_target_stays_listed. Qed.
+Print Assumptions C13_respelled_target_stays_listed.
+
+(** Why setPaymentInStore deletes the old index entry BEFORE it writes the new one: with the two
+    writes swapped ([set_payment_in_store_reordered], not the code of /repo) the re-spelled payment
+    exists, names its target, and is listed nowhere. *)
+Theorem C13_reordered_index_write_refuted :
+  let s := run [OPayCreate respell_pay] in
+  let s' := set_payment_in_store_reordered s (relower respell_pay) in
+  get_payment s' respell_src [120] = Some (relower respell_pay) /\
+  p_target (relower respell_pay) = respell_tgt /\
+  payments_of_target s' respell_tgt = [] /\
+  payments_of_target (set_payment_in_store s (relower respell_pay)) respell_tgt = [relower respell_pay].
+Proof. exact reordered_index_write_refuted. Qed.
+Print Assumptions C13_reordered_index_write_refuted.
+
+(** ---- the market listing (GetAllMarkets: query.FilteredPaginate over the known market ids) ---- *)
+
+(** After ANY history of market / commitment operations: following next_key and paging by offsets
+    through GetAllMarkets with any limit >= 1 in either direction returns every entry of the
+    known-market prefix store exactly once, in order; count_total is their number; every entry is a
+    4-byte id of a known market (so every accumulated hit yields one listed market). *)
+Theorem C13_paging_complete_markets : forall ops limit reverse fuel,
+  let l := pstore (cs_kv (crun ops)) p_known in
+  1 <= limit ->
+  N.of_nat (length l) + limit + 1 < two64 ->
+  (length l < fuel)%nat ->
+  follow_keys (fun rq => sdk_filtered_paginate markets_hit l rq) fuel limit reverse []
+    = Some (if reverse then rev l else l) /\
+  follow_offsets (fun rq => sdk_filtered_paginate markets_hit l rq) fuel limit reverse 0
+    = Some (if reverse then rev l else l) /\
+  (exists items next,
+     sdk_filtered_paginate markets_hit l
+       {| pr_key := []; pr_offset := 0; pr_limit := limit; pr_count_total := true; pr_reverse := reverse |}
+     = Some (items, {| ps_next := next; ps_total := N.of_nat (length l) |})) /\
+  (forall e, In e l -> exists m, m < two32 /\ u32_from_bz (fst e) = Some m /\
+                                 In m (known_markets (cs_kv (crun ops)))).
+Proof. exact paging_complete_markets. Qed.
+Print Assumptions C13_paging_complete_markets.
+
+(** ---- the maximum limit (2^64-1) on the SDK paginators ---- *)
+
+(** query.Paginate (payments and commitment listings), key = nil, offset 0, limit 2^64-1: the end
+    bound is 2^64-1 and [end + 1] wraps to 0, which no count reaches: EVERY entry is returned in one
+    page, no next key, exact total -- for every prefix store, both directions. *)
+Theorem C13_max_limit_sdk_paginate_one_page : forall V (l : list (key * V)) (ct reverse : bool),
+  N.of_nat (length l) < u64max ->
+  sdk_paginate l (max_limit_req 0 ct reverse)
+  = Some ((if reverse then rev l else l),
+          {| ps_next := []; ps_total := if ct then N.of_nat (length l) else 0 |}).
+Proof. exact sdk_paginate_max_limit_one_page. Qed.
+Print Assumptions C13_max_limit_sdk_paginate_one_page.
+
+(** query.FilteredPaginate (GetAllOrders, GetAllMarkets) with the same request, when every entry
+    is a hit ... *)
+Theorem C13_max_limit_sdk_filtered_one_page : forall V (hit : key -> V -> bool) (l : list (key * V))
+    (ct reverse : bool),
+  N.of_nat (length l) < u64max ->
+  (forall k v, In (k, v) l -> hit k v = true) ->
+  sdk_filtered_paginate hit l (max_limit_req 0 ct reverse)
+  = Some ((if reverse then rev l else l),
+          {| ps_next := []; ps_total := if ct then N.of_nat (length l) else 0 |}).
+Proof. exact sdk_filtered_max_limit_one_page. Qed.
+Print Assumptions C13_max_limit_sdk_filtered_one_page.
+
+(** ... which is the case for both listings in every reachable state ... *)
+Theorem C13_max_limit_markets_one_page : forall ops ct reverse,
+  let l := pstore (cs_kv (crun ops)) p_known in
+  N.of_nat (length l) < u64max ->
+  sdk_filtered_paginate markets_hit l (max_limit_req 0 ct reverse)
+  = Some ((if reverse then rev l else l),
+          {| ps_next := []; ps_total := if ct then N.of_nat (length l) else 0 |}).
+Proof. exact max_limit_markets_one_page. Qed.
+Print Assumptions C13_max_limit_markets_one_page.
+
+Theorem C13_max_limit_all_orders_one_page : forall ops ct reverse,
+  let l := pstore (run ops) p_all_orders in
+  N.of_nat (length ops) < u64max ->
+  N.of_nat (length l) < u64max ->
+  sdk_filtered_paginate all_orders_hit l (max_limit_req 0 ct reverse)
+  = Some ((if reverse then rev l else l),
+          {| ps_next := []; ps_total := if ct then N.of_nat (length l) else 0 |}).
+Proof. exact max_limit_all_orders_one_page. Qed.
+Print Assumptions C13_max_limit_all_orders_one_page.
+
+(** ... and NOT in general: query.FilteredPaginate has no clamp (filteredPaginateAfterOrder got one
+    in commit 9f0ea4287); with a leading entry that is not a hit numHits = 0 = end + 1 and the page
+    comes back EMPTY with a next key.  No exchange endpoint reaches this (the two listings that use
+    it have hits only). *)
+Theorem C13_max_limit_sdk_filtered_refuted :
+  exists (hit : key -> unit -> bool) (l : list (key * unit)),
+    sorted_keys l /\ matching hit l false 0 <> [] /\
+    exists next, next <> [] /\
+      sdk_filtered_paginate hit l (max_limit_req 0 false false)
+      = Some ([], {| ps_next := next; ps_total := 0 |}).
+Proof. exact sdk_filtered_max_limit_refuted. Qed.
+Print Assumptions C13_max_limit_sdk_filtered_refuted.
+
+(** Remark (not reachable by a client that pages from the start: the first page has no next key):
+    an OFFSET >= 1 together with limit 2^64-1 makes offset + limit wrap to offset - 1, and
+    query.Paginate returns an empty page. *)
+Theorem C13_max_limit_sdk_offset_remark : forall V (l : list (key * V)) (offset : N) (reverse : bool),
+  1 <= offset -> offset < two64 -> N.of_nat (length l) < u64max ->
+  exists next,
+    sdk_paginate l (max_limit_req offset false reverse) = Some ([], {| ps_next := next; ps_total := 0 |}).
+Proof. exact sdk_paginate_max_limit_offset_empty. Qed.
+Print Assumptions C13_max_limit_sdk_offset_remark.
+
+(** ---- genesis import (InitGenesis: the indexes are REBUILT, not copied) ---- *)
+
+(** [init_genesis xinit g = Some s0]: GenesisState.Validate passed and Keeper.InitGenesis did not
+    panic on the empty store (Exchange/GenesisImport.v).  The genesis may carry orders under ANY
+    pairwise different non-zero ids (with gaps, in any order), any denoms, external ids, payments
+    and owners in either address spelling.  For EVERY such genesis and EVERY later history [ops]:
+    all order lookups are exact (the statement of [C13_index_consistent], about the state reached
+    from the imported one) ... *)
+Theorem C13_genesis_index_consistent : forall g s0 ops,
+  init_genesis xinit g = Some s0 ->
+  g_last_order g + N.of_nat (length ops) < u64max ->
+  let s := run_from (fst s0) ops in
+  (forall m, m < two32 ->
+     StronglySorted N.lt (by_market s m) /\
+     forall id, id < two64 ->
+       (In id (by_market s m) <-> exists o, get_order s id = Some o /\ o_market o = m)) /\
+  (forall a,
+     StronglySorted N.lt (by_owner s a) /\
+     forall id, id < two64 ->
+       (In id (by_owner s a) <-> exists o, get_order s id = Some o /\ o_owner o = a)) /\
+  (forall d,
+     StronglySorted N.lt (by_asset s d) /\
+     forall id, id < two64 ->
+       (In id (by_asset s d) <-> exists o, get_order s id = Some o /\ o_asset o = d)) /\
+  (StronglySorted N.lt (all_orders s) /\
+   forall id, id < two64 -> (In id (all_orders s) <-> exists o, get_order s id = Some o)) /\
+  (forall m e id o, m < two32 -> id < two64 ->
+     (get_order_by_ext s m e = Some (id, o) <->
+      (get_order s id = Some o /\ o_market o = m /\ o_ext o = e /\ e <> []))).
+Proof. exact genesis_index_consistent. Qed.
+Print Assumptions C13_genesis_index_consistent.
+
+(** ... right after the import exactly the genesis orders are open; ids created later are above
+    LastOrderId (strictly increasing), so they never collide with an imported order ... *)
+Theorem C13_genesis_ids_fresh : forall g s0 ops,
+  init_genesis xinit g = Some s0 ->
+  g_last_order g + N.of_nat (length ops) < u64max ->
+  StronglySorted N.lt (created_from (fst s0) ops) /\
+  (forall id, In id (created_from (fst s0) ops) ->
+     g_last_order g < id /\ id <= last_order_id (run_from (fst s0) ops)) /\
+  (forall id o, id < two64 -> get_order (run_from (fst s0) ops) id = Some o ->
+     In id (map fst (g_orders g)) \/ In id (created_from (fst s0) ops)) /\
+  (forall id o, id < two64 -> (get_order (fst s0) id = Some o <-> In (id, o) (g_orders g))).
+Proof. exact genesis_ids_fresh. Qed.
+Print Assumptions C13_genesis_ids_fresh.
+
+(** ... external ids stay unique per market ... *)
+Theorem C13_genesis_external_id_unique : forall g s0 ops,
+  init_genesis xinit g = Some s0 ->
+  g_last_order g + N.of_nat (length ops) < u64max ->
+  let s := run_from (fst s0) ops in
+  forall id1 o1 id2 o2,
+    id1 < two64 -> id2 < two64 ->
+    get_order s id1 = Some o1 -> get_order s id2 = Some o2 ->
+    o_market o1 = o_market o2 -> o_ext o1 = o_ext o2 -> o_ext o1 <> [] ->
+    id1 = id2.
+Proof. exact genesis_external_id_unique. Qed.
+Print Assumptions C13_genesis_external_id_unique.
+
+(** ... the payment listings are exact (the statement of [C13_payments]) and right after the import
+    exactly the genesis payments are stored ... *)
+Theorem C13_genesis_payments : forall g s0 ops,
+  init_genesis xinit g = Some s0 ->
+  let s := run_from (fst s0) ops in
+  ((NoDup (map (fun p => (p_source p, p_ext p)) (all_payments s)) /\
+    forall p, In p (all_payments s) <-> get_payment s (p_source p) (p_ext p) = Some p) /\
+   (forall src,
+      NoDup (map p_ext (payments_of_source s src)) /\
+      forall p, In p (payments_of_source s src) <->
+                (get_payment s (p_source p) (p_ext p) = Some p /\ p_source p = src)) /\
+   (forall t,
+      NoDup (map (fun p => (p_source p, p_ext p)) (payments_of_target s t)) /\
+      forall p, In p (payments_of_target s t) <->
+                (get_payment s (p_source p) (p_ext p) = Some p /\ p_target p = t /\ t <> []))) /\
+  (forall p, In p (all_payments (fst s0)) <-> In p (g_pays g)).
+Proof. exact genesis_payments_consistent. Qed.
+Print Assumptions C13_genesis_payments.
+
+(** ... a market id identifies at most one market across the import (ids created later differ from
+    the imported ones) ... *)
+Theorem C13_genesis_market_ids : forall g s0 ops, init_genesis xinit g = Some s0 ->
+  let s := crun_from (snd s0) ops in
+  NoDup (map fst (g_markets g) ++ markets_created_from (snd s0) ops) /\
+  StronglySorted N.lt (known_markets (cs_kv s)) /\
+  (forall m, m < two32 -> (In m (known_markets (cs_kv s)) <->
+       In m (map fst (g_markets g)) \/ In m (markets_created_from (snd s0) ops))) /\
+  (forall m, In m (map fst (g_markets g)) \/ In m (markets_created_from (snd s0) ops) ->
+       m < two32 /\ In m (cs_accts s)).
+Proof. exact genesis_market_ids. Qed.
+Print Assumptions C13_genesis_market_ids.
+
+(** ... the commitment listings are exact (the statement of [C13_commitments_consistent]), and the
+    imported commitment of a (market, account) is the SUM of its genesis entries ... *)
+Theorem C13_genesis_commitments : forall g s0 ops, init_genesis xinit g = Some s0 ->
+  let kv := cs_kv (crun_from (snd s0) ops) in
+  (forall m, m < two32 ->
+     NoDup (map fst (market_commitments kv m)) /\
+     forall a c, In (a, c) (market_commitments kv m) <-> (a <> [] /\ c <> [] /\ get_commitment kv m a = c)) /\
+  (NoDup (map fst (all_commitments kv)) /\
+   (forall m a c, In (m, a, c) (all_commitments kv) -> m < two32) /\
+   forall m a c, m < two32 -> (In (m, a, c) (all_commitments kv) <-> (a <> [] /\ c <> [] /\ get_commitment kv m a = c))) /\
+  (forall a, a <> [] ->
+     NoDup (map fst (account_commitments kv a)) /\
+     forall m c, m < two32 -> (In (m, c) (account_commitments kv a) <-> (c <> [] /\ get_commitment kv m a = c))) /\
+  (forall m a, m < two32 -> a <> [] -> get_commitment kv m a <> [] ->
+     cvalid (get_commitment kv m a) = true /\ In m (known_markets kv)).
+Proof. exact genesis_commitments_consistent. Qed.
+Print Assumptions C13_genesis_commitments.
+
+Theorem C13_genesis_commitment_sums : forall g s0 m a, init_genesis xinit g = Some s0 -> m < two32 ->
+  get_commitment (cs_kv (snd s0)) m a
+  = fold_left (fun acc c => if (fst (fst c) =? m) && bytes_eqb (snd (fst c)) a
+                            then cadd acc (snd c) else acc) (g_commits g) [].
+Proof. exact genesis_commitment_sums. Qed.
+Print Assumptions C13_genesis_commitment_sums.
+
+(** ... and joint histories from an imported state decompose as from the empty one. *)
+Theorem C13_genesis_joint : forall g s0 xs, init_genesis xinit g = Some s0 ->
+  fst (xrun_from s0 xs) = run_from (fst s0) (flat_map proj_o xs) /\
+  snd (xrun_from s0 xs) = crun_from (snd s0) (flat_map proj_c xs).
+Proof. exact genesis_joint. Qed.
+Print Assumptions C13_genesis_joint.
+
+(** Non-vacuity: [example_genesis] (orders 7 and 3 given out of order on denoms "Aaa" / "aaa", a
+    commitment in two entries, a payment with an upper-case target) is imported, and a genesis that
+    carries one external id twice in one market passes Validate but is refused by InitGenesis. *)
+Example C13_genesis_nonvacuous :
+  (exists s0, init_genesis xinit example_genesis = Some s0 /\
+     by_asset (fst s0) [65;97;97] = [7] /\ by_asset (fst s0) [97;97;97] = [3] /\
+     all_orders (fst s0) = [3;7] /\ last_order_id (fst s0) = 9 /\
+     length (payments_of_target (fst s0) [2;2;2]) = 1%nat) /\
+  (exists s0, init_genesis xinit example_genesis = Some s0 /\
+     known_markets (cs_kv (snd s0)) = [2; 5] /\
+     market_commitments (cs_kv (snd s0)) 2 = [([1;1;1], [(aaa, 5%Z); (bbb, 1%Z)])] /\
+     last_market_id (cs_kv (snd s0)) = 2) /\
+  (valid_genesis clash_genesis = true /\ init_genesis xinit clash_genesis = None).
+Proof. exact (conj example_genesis_imports (conj example_genesis_commit_ok duplicate_external_id_refused)). Qed.
+
+(** ---- tie to the source: the key prefixes of x/exchange/keeper/keys.go ---- *)
+
+(** [gen_exchange_key_consts] is regenerated from keys.go on every run (translate/exchkeys): every
+    constant declared there -- 13 top-level type bytes, 14 per-market sub-bytes, the order type
+    bytes, the separator, 3 params strings -- has a row in the reviewed table
+    Exchange/KeyCoverage.v with the SAME value, either naming the model definition that lays out
+    keys with it or giving the reason it is out of scope; no row is stale; no function of keys.go
+    builds a key from a raw literal; and the modelled bytes are the bytes the models use.  A new
+    prefix, a changed value or a raw literal in the source makes this false. *)
+Theorem C13_key_prefixes_covered :
+  all_covered gen_exchange_key_consts = true /\
+  no_stale_rows gen_exchange_key_consts = true /\
+  model_bytes_ok = true.
+Proof. exact exchange_key_prefixes_covered. Qed.
+Print Assumptions C13_key_prefixes_covered.
 
 (** Non-vacuity for the commitment / market part: the example history creates markets 1, 2 (auto)
     and 5 (explicit), is refused the automatic id 3 (a foreign account sits on its address) and a
